@@ -128,6 +128,7 @@ def run_property(prop, tree, harnesses, jobs, timeout_s, mem_gb=36, extra_args=(
     rounds = (len(names) + jobs - 1) // jobs
     overall = 1500 + rounds * (timeout_s + 30)
     rc, out, secs, reason = run(cmd, cwd=tree, timeout=overall, mem_limit_gb=mem_gb)
+    _reap_orphan_solvers()
     results = {}
     for fn in os.listdir(outdir):
         bare = fn.rsplit("::", 1)[-1]
@@ -139,6 +140,26 @@ def run_property(prop, tree, harnesses, jobs, timeout_s, mem_gb=36, extra_args=(
     compile_failed = bool(re.search(r"^error(\[E\d+\])?:", out, re.M)) and not results
     return results, {"rc": rc, "secs": secs, "killed": reason, "compile_failed": compile_failed,
                      "log_tail": _strip_noise(out)[-6000:], "cmd": " ".join(cmd)}
+
+
+def _reap_orphan_solvers():
+    """CBMC's SMT back ends run `z3|cvc5 ... /tmp/smt2_dec_problem_*` as a child; when a harness times out the child is
+    re-parented to init and keeps a core busy for hours. Kill those (and only those)."""
+    for pid in os.listdir("/proc"):
+        if not pid.isdigit():
+            continue
+        try:
+            with open(f"/proc/{pid}/cmdline", "rb") as f:
+                argv = f.read().split(b"\0")
+            with open(f"/proc/{pid}/stat") as f:
+                ppid = int(f.read().rsplit(")", 1)[1].split()[1])
+        except (OSError, ValueError, IndexError):
+            continue
+        if ppid == 1 and argv and os.path.basename(argv[0]) in (b"z3", b"cvc5") and any(b"smt2_dec_problem" in a for a in argv):
+            try:
+                os.kill(int(pid), 9)
+            except OSError:
+                pass
 
 
 def _strip_noise(out):
